@@ -139,7 +139,9 @@ def gen_settings(rng):
 # ---------------------------------------------------------------------------------------------------------------
 
 TEXT_CHARS = "abcXYZ 019.,!?'-é中\U0001F600"
-ENTITIES = ["&amp;", "&lt;", "&gt;", "&nbsp;", "&lrm;", "&rlm;", "&#65;", "&#x42;", "&#x4e2d;", "&#128512;", "&#66 ", "& ", "&.", "AT&T", "&;"]
+ENTITIES = ["&amp;", "&lt;", "&gt;", "&nbsp;", "&lrm;", "&rlm;", "&#65;", "&#x42;", "&#x4e2d;", "&#128512;", "&#66 ", "& ", "&.", "AT&T", "&;",
+            # an escaped ampersand directly followed by text that spells a reference: must be decoded ONCE
+            "&amp;lt;", "&amp;amp;", "&amp;#65;", "&amp;nbsp;"]
 FG = ["white", "lime", "cyan", "red", "yellow", "magenta", "blue", "black"]
 LANGS = ["en", "fr-CA", "ja", "zh-Hans"]
 VOICES = ["Bob", "Esme Smith", "X", "Dr. A", "Tom &amp; Al", "R&D", "A &lt; B"]
